@@ -3,7 +3,7 @@
    Proofs/C11.v or Proofs/C11_table.v and followed by Print Assumptions.
    [table], [feats], [meta_sections] and [probes] are generated from the tree
    under test (Gen/MetaTable.v). *)
-From Coq Require Import ZArith List Bool.
+From Coq Require Import ZArith List Bool Permutation.
 From Verif Require Import Model.C11 Proofs.C11 Gen.MetaTable Proofs.C11_table.
 Import ListNotations.
 Open Scope Z_scope.
@@ -97,6 +97,13 @@ Theorem C11_file_line_agrees :
               (VS (SStr (file_text rawval))) d.
 Proof. exact (line_route_agrees table feats). Qed.
 Print Assumptions C11_file_line_agrees.
+
+(* ConfigurationDict.items() lists every stored entry exactly once, sorted by
+   key. *)
+Theorem C11_items_sorted_permutation :
+  forall d : dict, sorted_keys (items d) = true /\ Permutation (items d) d.
+Proof. exact (fun d => conj (items_sorted d) (items_perm d)). Qed.
+Print Assumptions C11_items_sorted_permutation.
 
 (* Every key of the generated table is found under its own lower-case name
    with the converter the table gives. *)
